@@ -10,7 +10,7 @@ import vlib
 import compiles
 
 FAMS = ["conv_chain", "single", "unsupported", "mixed_cpu", "diamond", "lut_heavy", "conv_chain_big", "single", "unsupported",
-        "ew_dag", "multi_custom", "weights_heavy"]
+        "ew_dag", "multi_custom", "weights_heavy", "multi_subgraph"]
 
 
 def classify(r):
@@ -39,6 +39,10 @@ def run(tier):
             jobs.append({"family": "single:" + kind, "seed": "c13k-%d-%d" % (vlib.seed(), rep), "args": compiles.config_args(rk), "capture": False})
         for kind in netgen.UNSUPPORTED_KINDS:
             jobs.append({"family": "unsupported:" + kind, "seed": "c13k-%d-%d" % (vlib.seed(), rep), "args": compiles.config_args(rk), "capture": False})
+    # every kind of multi-subgraph model (WHILE / IF / CALL_ONCE), including NPU-supported operators inside IF branches
+    for rep in range(1 if tier == "quick" else 6):
+        for kind in sorted(set(netgen.MULTI_KINDS)) + ["if_npu"]:
+            jobs.append({"family": "multi_subgraph:" + kind, "seed": "c13m-%d-%d" % (vlib.seed(), rep), "args": compiles.config_args(rk), "capture": False})
     # option-combination corners
     extra = [["--optimise", "Size", "--tensor-allocator", "Greedy", "--cpu-tensor-alignment", "256"],
              ["--arena-cache-size", "1024"], ["--max-block-dependency", "0"], ["--hillclimb-max-iterations", "1"],
